@@ -1,0 +1,28 @@
+//go:build verif
+// +build verif
+
+package sarama
+
+// Verification hooks (build tag "verif"). A model-checking harness installs
+// VerifGateFn to park a goroutine right before it injects an event into another
+// goroutine, and VerifPickFn to own the choice that would otherwise be made by
+// Go's randomised map iteration. With no handler installed both are no-ops.
+
+// VerifGateFn, when non-nil, is called at every gate site.
+var VerifGateFn func(site, topic string, n int32)
+
+// VerifPickFn, when non-nil, chooses one of the given brokers (or nil for "no opinion").
+var VerifPickFn func(brokers map[int32]*Broker) *Broker
+
+func verifGate(site, topic string, n int32) {
+	if f := VerifGateFn; f != nil {
+		f(site, topic, n)
+	}
+}
+
+func verifPickBroker(brokers map[int32]*Broker) *Broker {
+	if f := VerifPickFn; f != nil {
+		return f(brokers)
+	}
+	return nil
+}
